@@ -2,7 +2,7 @@ import QV.Model.Compiler
 import QV.Proofs.Circuit
 import QV.Proofs.CompilerInv
 import QV.Proofs.CompilerSem
--- PORT-PENDING import QV.Proofs.CompilerSem2   (not yet ported to the repaired compiler model, see docs/notes/PORT-PENDING.md)
+import QV.Proofs.CompilerSem2
 /-!
 # C02 – The circuit computes the function's boolean expressions
 
@@ -36,10 +36,11 @@ is (partial):
   decidable class `inFragment` (one definition `r = e`, `e` a Not/And/Or/Xor expression over the
   arguments in which no compound sub-expression occurs twice) every successful run of `compile`,
   with and without final uncomputation, for every admissible ancilla-choice sequence, is `Correct`.
-* the widened fragment theorems (`C02_fragment_consts`, `C02_fragment_named`, `C02_fragment_multi`,
-  `C02_free_zero_invariant`) were proved for the model of the unrepaired compiler and are **parked**
-  in `PORT-PENDING` blocks below until `QV/Proofs/CompilerSem2*.lean` are ported
-  (`docs/notes/PORT-PENDING.md`).
+* the widened fragment theorems (ported to the repaired model, and stronger there): `C02_fragment_consts`
+  (one definition with constants), `C02_fragment_named_wide` / `C02_fragment_named` / `C02_fragment_multi`
+  (straight-line definition lists with named intermediates and several return bits, final uncomputation
+  **on or off**, `Or` of any arity over any arguments), `C02_free_zero_invariant` ("free ⇒ zero" is an
+  invariant of the statement loop for every return list and uncompute flag).
 -/
 namespace QV.C02
 open QV QV.Compiler
@@ -370,15 +371,19 @@ example : ∃ s, (compile ["a", "b", "c"]
 Proofs: `QV/Proofs/CompilerSem2a…d.lean`, `QV/Proofs/CompilerSem2.lean`.  The invariants of `CompilerSem.lean`
 are generalised: the *scratch space* of a state is its free set together with the qubits not allocated yet,
 and every qubit of the scratch space is zero (`Pre2.zero`); constants and named intermediates are *known
-names* bound to qubits outside the free and the ancilla set (`Pre2.tbl`).  Between two definitions the inline
-`uncompute` replays, in reverse, the gates whose target is marked; `bennettF` shows that this gives the marked
-ancillas back as zeros, provided every control of every gate of the definition is marked itself or is a known
-name's qubit holding that name's value when the gate is applied – which `compile_expr` guarantees on the class
-`wfExp scope false` (no `Or` of three or more arguments with a symbol or constant among them: there De Morgan's
-`X` gates on the symbol's qubit are not replayed but the `MCX` between them is – the freed ancilla is then NOT
-zero, `#eval`-checked counterexamples in `docs/notes/C02_C03_C06.md`). -/
+names* bound to qubits outside the free and the ancilla set (`Pre2.tbl`); kept ancillas (`kept_ancillas`) are
+never in the free set (`Pre2.keptNF`).  Between two definitions the statement ends in one of two ways.  If the
+defined name is a requested return bit (or there is no final uncomputation) the inline `uncompute` replays, in
+reverse, the gates whose target is marked; `bennettF` shows that this gives the marked ancillas back as zeros,
+because every control of every gate of the definition is marked itself or is a known name's qubit holding that
+name's value when the gate is applied.  Otherwise `keep_ancillas` leaves every qubit and the free set alone.
+The or-chain of the repaired `compile_or` (`orChain_sem2`) writes only new marked ancillas and the destination,
+so the restriction the unrepaired compiler needed (no `Or` of three or more arguments with a symbol or constant
+among them: De Morgan's `X` gates on the symbol's qubit were not replayed, the freed ancilla was NOT zero,
+`docs/notes/C02_C03_C06.md`) is gone: `wfExpW` / `slDefsW` / `inFragmentNamedW` are `wfExp` / `slDefs` /
+`inFragmentNamed` without it.  With final uncomputation on, `uncompute_all` appends no gate whose target is the
+qubit of a requested return bit, so the values proved for the statement loop survive it. -/
 
-/- PORT-PENDING theorem C02_fragment_consts (needs QV.Proofs.CompilerSem2 (CompilerSem2a-d); text unchanged)
 /-- **(a) constants.**  C02 on single definitions whose expression may contain `True` / `False` (anywhere
 except directly, or under one `Not`, as an argument of `Xor`), including `r = True` / `r = False`; final
 uncomputation on or off; every admissible sequence of ancilla choices.  The class contains `inFragment`
@@ -396,55 +401,63 @@ theorem C02_fragment_consts (inputs : List String) (defs : List (String × BExp)
     intro x hx r' hr'
     have hr : r' = r := hrets r' hr'
     subst hr
-    obtain ⟨q, hq, hv⟩ := compile_const_sem h (fun _ => hr') hnd (fun n hn => hfr n hn) ⟨hr1, hr2⟩ hwf
-      (distinctB_iff.mp hdist) x hx
+    obtain ⟨q, hq, hv⟩ := compile_const_sem h (fun _ => hr') hnd (fun n hn => hfr n hn) ⟨hr1, hr2⟩
+      (wfExpW_of_wfExp e hwf) (distinctB_iff.mp hdist) x hx
     refine ⟨q, hq, ?_⟩
     rw [hv]
     simp [evalDefs, envOf]
-PORT-PENDING end -/
 
-/- PORT-PENDING theorem C02_fragment_named (needs QV.Proofs.CompilerSem2 (CompilerSem2a-d); text unchanged)
-/-- **(c) named intermediates.**  C02 on straight-line definition lists (`m0 = e0; …; _ret = f(m0, args)`; every
-right-hand side reads arguments and earlier left-hand sides, any number of times; constants allowed as in (a);
-no cache key twice in the whole list; `Or` with three or more arguments only over compound arguments), final
-uncomputation off, every admissible sequence of ancilla choices – including the runs in which ancillas freed
-by the inline `uncompute` after one definition are re-used by later ones. -/
-theorem C02_fragment_named (inputs : List String) (defs : List (String × BExp)) (rets : List String)
-    (choices : List Nat) (s : CState)
-    (hf : inFragmentNamed inputs defs rets = true)
-    (h : (compile inputs defs (some rets) false).run { choices := choices } = .ok ((), s)) :
+/-- **(c) named intermediates, on the class of the repaired compiler.**  C02 on straight-line definition lists
+(`m0 = e0; …; _ret = f(m0, args)`; every right-hand side reads arguments and earlier left-hand sides, any number
+of times; constants allowed as in (a); no cache key twice in the whole list; `Or` / `And` / `Xor` of any arity
+over symbols, constants and compound expressions, `Or` / `Xor` not empty), final uncomputation **on or off**,
+every admissible sequence of ancilla choices – including the runs in which ancillas freed by the inline
+`uncompute` after one definition are re-used by later ones, and (uncomputation on) the runs in which the
+ancillas of a definition that is not a requested return bit are kept for the final `uncompute_all`. -/
+theorem C02_fragment_named_wide (inputs : List String) (defs : List (String × BExp)) (rets : List String)
+    (unc : Bool) (choices : List Nat) (s : CState)
+    (hf : inFragmentNamedW inputs defs rets = true)
+    (h : (compile inputs defs (some rets) unc).run { choices := choices } = .ok ((), s)) :
     Correct s.qc.gates.toList s.qc.numQubits s.qc.qmap inputs defs rets := by
-  simp only [inFragmentNamed, Bool.and_eq_true, decide_eq_true_eq, List.all_eq_true, Bool.not_eq_true',
+  simp only [inFragmentNamedW, Bool.and_eq_true, decide_eq_true_eq, List.all_eq_true, Bool.not_eq_true',
     List.any_eq_true, beq_iff_eq] at hf
   obtain ⟨⟨⟨⟨hnd, hfr⟩, hsl⟩, hdist⟩, hrets⟩ := hf
   intro x hx r hr
-  exact compile_named_sem h hnd hfr hsl (distinctB_iff.mp hdist) x hx r (hrets r hr)
-PORT-PENDING end -/
+  exact compile_named_sem h hnd hfr hsl (distinctB_iff.mp hdist) x hx r (hrets r hr) (fun _ => hr)
 
-/- PORT-PENDING theorem C02_fragment_multi (needs QV.Proofs.CompilerSem2 (CompilerSem2a-d); text unchanged)
+/-- **(c) named intermediates**, on the class `inFragmentNamed` the driver reports (every `Or` with one or two
+arguments or only compound ones – the restriction the unrepaired compiler needed; a sub-class of
+`C02_fragment_named_wide`), final uncomputation on or off. -/
+theorem C02_fragment_named (inputs : List String) (defs : List (String × BExp)) (rets : List String)
+    (unc : Bool) (choices : List Nat) (s : CState)
+    (hf : inFragmentNamed inputs defs rets = true)
+    (h : (compile inputs defs (some rets) unc).run { choices := choices } = .ok ((), s)) :
+    Correct s.qc.gates.toList s.qc.numQubits s.qc.qmap inputs defs rets :=
+  C02_fragment_named_wide inputs defs rets unc choices s (inFragmentNamedW_of_inFragmentNamed hf) h
+
 /-- **(b) several return bits.**  C02 on definition lists `_ret.0 = e0; _ret.1 = e1; …` in which every
-right-hand side is an independent tree over the arguments alone (a sub-class of (c)), final uncomputation off. -/
+right-hand side is an independent tree over the arguments alone (a sub-class of (c)), final uncomputation on
+or off. -/
 theorem C02_fragment_multi (inputs : List String) (defs : List (String × BExp)) (rets : List String)
-    (choices : List Nat) (s : CState)
+    (unc : Bool) (choices : List Nat) (s : CState)
     (hf : inFragmentMulti inputs defs rets = true)
-    (h : (compile inputs defs (some rets) false).run { choices := choices } = .ok ((), s)) :
+    (h : (compile inputs defs (some rets) unc).run { choices := choices } = .ok ((), s)) :
     Correct s.qc.gates.toList s.qc.numQubits s.qc.qmap inputs defs rets := by
   simp only [inFragmentMulti, Bool.and_eq_true] at hf
-  exact C02_fragment_named inputs defs rets choices s hf.1 h
-PORT-PENDING end -/
+  exact C02_fragment_named inputs defs rets unc choices s hf.1 h
 
-/- PORT-PENDING theorem C02_free_zero_invariant (needs QV.Proofs.CompilerSem2 (CompilerSem2a-d); text unchanged)
 /-- the step (b)/(c) rest on, in isolation: **"free ⇒ zero" is an invariant of the statement loop on the
-class** – if every qubit of the scratch space (free set and not yet allocated qubits) is zero before a
-straight-line definition list is compiled (invariant `Inv`), it is so afterwards -/
-theorem C02_free_zero_invariant (defs : List (String × BExp)) (scope : List String)
+class**, for every return list (`retBits = none`: the decompiler's call) and uncompute flag – if every qubit of
+the scratch space (free set and not yet allocated qubits) is zero before a straight-line definition list is
+compiled (invariant `Inv`), it is so afterwards -/
+theorem C02_free_zero_invariant (retBits : Option (List String)) (doUncompute : Bool)
+    (defs : List (String × BExp)) (scope : List String)
     (env : List (String × Bool)) (done : List BExp) (σ0 : FState) (s s' : CState)
-    (h : (compileDefs defs).run s = .ok ((), s')) (hinv : Inv scope (envOf env) σ0 done s)
-    (hsl : slDefs scope defs = true) (hd : distinctB (done ++ defs.flatMap (fun p => compKeys p.2)) = true) :
+    (h : (compileDefs retBits doUncompute defs).run s = .ok ((), s')) (hinv : Inv scope (envOf env) σ0 done s)
+    (hsl : slDefsW scope defs = true) (hd : distinctB (done ++ defs.flatMap (fun p => compKeys p.2)) = true) :
     ∀ q, q ∈ s'.qc.free → cur σ0 s' q = false := by
   obtain ⟨scope', done', hfin, _, _⟩ := defs_sem defs scope env done h hinv hsl (distinctB_iff.mp hd)
   exact fun q hq => hfin.pre.zero q (Or.inl hq)
-PORT-PENDING end -/
 
 /-- instances of the three classes -/
 example : inFragmentConst ["a", "b", "c"]
@@ -465,11 +478,15 @@ example : inFragmentNamed ["a", "b", "c"]
     [("m0", .and [.sym "a", .sym "b"]), ("_ret", .xor [.sym "m0", .or [.sym "c", .not (.sym "m0")]])]
     ["_ret"] = true := by decide +kernel
 
-/-- not in classes (b)/(c): `Or` of three arguments with symbols among them, below an `And` – the ancilla of
-the `Or` is freed non-zero by the inline `uncompute` (De Morgan's `X` gates on `a`, `b` are not replayed) -/
+/-- not in the classes (b)/(c) the driver reports, but in the class of `C02_fragment_named_wide`: `Or` of three
+arguments with symbols among them, below an `And` (with the unrepaired compiler the ancilla of the `Or` was
+freed non-zero by the inline `uncompute`: De Morgan's `X` gates on `a`, `b` were not replayed) -/
 example : inFragmentNamed ["a", "b", "c", "d"]
     [("_ret.0", .and [.or [.sym "a", .sym "b", .sym "c"], .sym "d"]), ("_ret.1", .and [.sym "a", .sym "d"])]
-    ["_ret.0", "_ret.1"] = false := by decide +kernel
+    ["_ret.0", "_ret.1"] = false ∧
+  inFragmentNamedW ["a", "b", "c", "d"]
+    [("_ret.0", .and [.or [.sym "a", .sym "b", .sym "c"], .sym "d"]), ("_ret.1", .and [.sym "a", .sym "d"])]
+    ["_ret.0", "_ret.1"] = true := by decide +kernel
 
 /-- the same with a compound argument list is in the class -/
 example : inFragmentNamed ["a", "b", "c", "d"]
@@ -497,6 +514,20 @@ example : ∃ s, (compile ["a", "b", "c"]
   cases hrun : (compile ["a", "b", "c"]
       [("m0", .xor [.sym "a", .sym "b"]), ("_ret", .xor [.sym "m0", .not (.sym "c")])]
       (some ["_ret"]) false).run { choices := [3, 4] } with
+  | ok p => exact ⟨p.2, rfl⟩
+  | error e => rw [hrun] at h; cases h
+
+/-- the same program with final uncomputation on: `m0` is not a requested return bit, the ancillas in use after
+its statement are kept (`keep_ancillas`) for the final `uncompute_all` -/
+example : ∃ s, (compile ["a", "b", "c"]
+      [("m0", .xor [.sym "a", .sym "b"]), ("_ret", .xor [.sym "m0", .not (.sym "c")])]
+      (some ["_ret"]) true).run { choices := [3, 4] } = .ok ((), s) := by
+  have h : ((compile ["a", "b", "c"]
+      [("m0", .xor [.sym "a", .sym "b"]), ("_ret", .xor [.sym "m0", .not (.sym "c")])]
+      (some ["_ret"]) true).run { choices := [3, 4] }).toBool = true := by decide +kernel
+  cases hrun : (compile ["a", "b", "c"]
+      [("m0", .xor [.sym "a", .sym "b"]), ("_ret", .xor [.sym "m0", .not (.sym "c")])]
+      (some ["_ret"]) true).run { choices := [3, 4] } with
   | ok p => exact ⟨p.2, rfl⟩
   | error e => rw [hrun] at h; cases h
 
